@@ -101,15 +101,17 @@ def main():
             for r in self.reactors:
                 self.src.add_listener(FAN, r)
                 ps.append({"a": "Add", "ty": "T1", "l": r.j + 1})
-            self.simulator.add_listener(SimulatorInterface.TIME_CHANGED_EVENT, Clock(self))
+            if model_cfg.get("tc_listener", True):
+                self.simulator.add_listener(SimulatorInterface.TIME_CHANGED_EVENT, Clock(self))
 
-        def h(self, k):
+        def h(self, k, tag=None):
             # observations are random: the statistics digest then compares every draw bit for bit
             u = self.streams["main"].next_float()
             self.src.fire(ds.ObsTypes.C, 1 + int(u * 3))
             self.src.fire(ds.ObsTypes.T, u)
             self.src.fire(ds.ObsTypes.W, (float(int(u * 4)), u * 10))
-            self.src.fire(ds.ObsTypes.P, float(int(u * 5)))
+            # the "clock" stream has no configured seed list: it is served by the fallback updater
+            self.src.fire(ds.ObsTypes.P, float(int(self.streams["clock"].next_float() * 5)))
             self.ctl.on_handler(k)
 
     def prog_gen(rank, ctl):
@@ -132,6 +134,11 @@ def main():
             ctl.observe()
             for _ in range(plan["steps_first"]):
                 ctl.step()
+                ctl.observe()
+            for b in plan.get("bounds", []):          # pauses made with bounded runs
+                if ctl.sim.run_state.name == "ENDED":
+                    break
+                ctl.run_cmd("RunUpTo" if b[1] else "RunUpToIncl", b[0])
                 ctl.observe()
             for pa in plan["pauses"]:
                 if ctl.sim.run_state.name == "ENDED":
